@@ -59,6 +59,10 @@ package coroutines
 //@ ensures err == nil && r.Kind == t_api.CreatePromiseAndTask ==> res.CreatePromiseAndTask != nil && create_post(res.CreatePromiseAndTask.Status, res.CreatePromiseAndTask.Promise, createPromiseReq)
 //@ ensures [C15 C13] err != nil ==> kerr.create(errcode(err))
 //@ ensures [C15 C13] err == nil && r.Kind == t_api.CreatePromise ==> kstatus.CreatePromise(res.CreatePromise.Status)
+// a task is handed to the requester exactly when this request created it (C07: a deduplicated create does not
+// make its sender a holder), and it is the task of the command: same id, process, counter 1
+//@ ensures [C07 C08] err == nil && r.Kind == t_api.CreatePromiseAndTask ==> (res.CreatePromiseAndTask.Task != nil) == (res.CreatePromiseAndTask.Status == t_api.StatusCreated)
+//@ ensures [C07 C08] err == nil && r.Kind == t_api.CreatePromiseAndTask && res.CreatePromiseAndTask.Task != nil ==> res.CreatePromiseAndTask.Task.Id == taskCmd.Id && res.CreatePromiseAndTask.Task.ProcessId == taskCmd.ProcessId && res.CreatePromiseAndTask.Task.Counter == 1 && res.CreatePromiseAndTask.Task.State == task.Claimed
 //@ ensures [C15 C13] err == nil && r.Kind == t_api.CreatePromiseAndTask ==> kstatus.CreatePromise(res.CreatePromiseAndTask.Status)
 
 //@ func CreatePromiseAndTask
@@ -132,9 +136,9 @@ package coroutines
 //@ ensures err == nil ==> res.Kind == t_api.ClaimTask && res.ClaimTask != nil
 //@ ensures err == nil ==> linearizes(seq.claim(pre_tasks(r.ClaimTask.Id), post_tasks(r.ClaimTask.Id), T, res.ClaimTask.Status, r.ClaimTask.Counter, r.ClaimTask.ProcessId, r.ClaimTask.Ttl) && (res.ClaimTask.Status == t_api.StatusCreated ==> res.ClaimTask.Task != nil && tview(res.ClaimTask.Task) == tview.row(post_tasks(r.ClaimTask.Id))))
 // the promises handed to the claimant are the ones the task's message names: root under root, leaf under leaf
-//@ ensures [C20 C07 C08] err == nil && res.ClaimTask.Status == t_api.StatusCreated && res.ClaimTask.RootPromise != nil ==> res.ClaimTask.RootPromise.Id == res.ClaimTask.Task.Mesg.Root
-//@ ensures [C20 C07 C08] err == nil && res.ClaimTask.Status == t_api.StatusCreated && res.ClaimTask.LeafPromise != nil ==> res.ClaimTask.Task.Mesg.Type == message.Resume && res.ClaimTask.LeafPromise.Id == res.ClaimTask.Task.Mesg.Leaf
-//@ ensures [C20 C07 C08] err == nil && res.ClaimTask.Status != t_api.StatusCreated ==> res.ClaimTask.RootPromise == nil && res.ClaimTask.LeafPromise == nil
+//@ ensures [C20 C07 C08 C01] err == nil && res.ClaimTask.Status == t_api.StatusCreated && res.ClaimTask.RootPromise != nil ==> res.ClaimTask.RootPromise.Id == res.ClaimTask.Task.Mesg.Root
+//@ ensures [C20 C07 C08 C01] err == nil && res.ClaimTask.Status == t_api.StatusCreated && res.ClaimTask.LeafPromise != nil ==> res.ClaimTask.Task.Mesg.Type == message.Resume && res.ClaimTask.LeafPromise.Id == res.ClaimTask.Task.Mesg.Leaf
+//@ ensures [C20 C07 C08 C01] err == nil && res.ClaimTask.Status != t_api.StatusCreated ==> res.ClaimTask.RootPromise == nil && res.ClaimTask.LeafPromise == nil
 //@ ensures [C15 C13] err == nil ==> res != nil && res.Kind == t_api.ClaimTask && res.ClaimTask != nil && kstatus.ClaimTask(res.ClaimTask.Status)
 //@ ensures [C15 C13] err != nil ==> kerr.platform(errcode(err))
 
@@ -228,14 +232,14 @@ package coroutines
 //@ ensures [C15 C13] err != nil ==> kerr.platform(errcode(err))
 
 //@ func TimeoutLocks$1
-//@ props C09 C02
+//@ props C09 C02 C06
 //@ ghostdb coroutine
 //@ nopanic C13
 //@ requires c != nil && tags != nil
 //@ ensures linearizes(post_locks(anykey("sweep")) == pre_locks(anykey("sweep")) || post_locks(anykey("sweep")) == spec.TimeoutLocks.locks(pre_locks(anykey("sweep")), anykey("sweep"), T))
 
 //@ func TimeoutPromises$1
-//@ props C01 C04 C05 C08 C02
+//@ props C01 C04 C05 C08 C02 C06
 //@ serves C06
 //@ ghostdb coroutine
 //@ nopanic C13
@@ -244,7 +248,7 @@ package coroutines
 //@ site loop 1 call completePromise assert cmd != nil && iterfresh(cmd) && cmd.Id == r.Id && cmd.CompletedOn == r.Timeout
 
 //@ func TimeoutTasks$1
-//@ props C07 C08 C02
+//@ props C07 C08 C02 C06
 //@ ghostdb coroutine
 //@ nopanic C13
 //@ requires c != nil && config != nil && tags != nil
@@ -252,7 +256,7 @@ package coroutines
 //@ site loop 1 batch assert (now() < t.Timeout ==> cmd.UpdateTask.State == task.Init && cmd.UpdateTask.Counter == t.Counter + 1) && (now() >= t.Timeout ==> cmd.UpdateTask.State == task.Timedout && cmd.UpdateTask.Counter == t.Counter)
 
 //@ func EnqueueTasks$1
-//@ props C07 C08 C19 C02
+//@ props C07 C08 C19 C02 C06
 //@ ghostdb coroutine
 //@ nopanic C13
 //@ requires c != nil && config != nil && tags != nil
